@@ -17,6 +17,9 @@ MUTANTS = [
     {'name': 'original-defect: the arc-length table is never advanced (columns uniform in x, not along the curve)', 'file': F,
      'old': 'while forward_mapping[forward_position] < sample_positions[i]:', 'new': 'while forward_mapping[forward_position] > sample_positions[i]:'},
     {'name': 'width ignores the scale', 'file': F, 'old': 'horizontal_sample_count = int(mapping_x_to_line_pos[-1] * scale)', 'new': 'horizontal_sample_count = int(mapping_x_to_line_pos[-1])'},
+    {'name': 'descender height not scaled', 'file': F, 'old': 'line_heights = [line_heights[0] * self.scale, line_heights[1] * self.scale]', 'new': 'line_heights = [line_heights[0] * self.scale, line_heights[1]]'},
+    {'name': 'heights scaled in place (caller\'s array rescaled by every crop)', 'file': F, 'old': '        line_heights = [line_heights[0] * self.scale, line_heights[1] * self.scale]',
+     'new': '        line_heights = np.asarray(line_heights)\n        line_heights *= self.scale'},
     {'name': 'fallback crop with the wrong height', 'file': F, 'old': 'line_crop = np.zeros([self.line_height, 32, img.shape[2]], dtype=np.uint8)', 'new': 'line_crop = np.zeros([32, 32, img.shape[2]], dtype=np.uint8)'},
 ]
 
@@ -249,6 +252,10 @@ def run(ctx):
         'every sample, the piecewise-linear inverse of the (strictly increasing) arc-length table at that arc length — the x position of a crop '
         'column is the point of the baseline at that distance along the curve, so uniformly spaced samples (np.linspace in get_crop_inputs) give '
         'columns that advance uniformly along the baseline; no division by zero, no index outside the table, the inner search terminates.  '
+        'PROVED (slice of get_crop_inputs: the statements that compute vertical_map, scale and the sample count, re-extracted on every run, for all '
+        'positive heights given as a list or as a float64 array, any positive configured scale, target height >= 2): the row offsets run linearly from '
+        '-(ascender x scale) to +(descender x scale), the width is int(length x target height / scaled line height), and the heights object of the '
+        'caller is not written (rotation, interpolant and normals are dropped from the slice).  '
         'BOUNDED numeric (tolerance 0.75 px; column spacing within 5%): on a grid of integer baselines (2-5 points, steps, slopes up to '
         '+-1.5 within 60 degrees, mild curvature, an arc and an S-shaped baseline, in and partly outside the page) x interpolation orders 0/1/2 x '
         'heights / line heights / scales: map height = configured height, width = length x scale, columns uniform from first to last point, rows '
@@ -260,6 +267,14 @@ def run(ctx):
     from contracts import cropping
     reps = vrun.verify(cropping.KEYS, cropping.CONTRACTS, root=core.repo_root(), both=thorough)
     ctx.add_proof_reports(reps, clause='column x positions = arc-length inverse at the sampled arc lengths (uniform along the baseline)')
+    from pyvc import solve
+    breps = cropping.reports(core.repo_root())
+    for r in breps:
+        for vc in r.vcs:
+            vc.func = r.name
+    solve.discharge([vc for r in breps for vc in r.vcs], {r.name: r.axioms for r in breps})
+    ctx.add_proof_reports(breps, clause="rows run linearly from the scaled ascender height above the baseline to the scaled descender height below it; "
+                                        "width = length x target height / scaled line height; the caller's heights are left unchanged")
     ctx.trusted += ['A4: the numba object-mode jit of reverse_line_mapping behaves as the Python source',
                     'callers (get_crop_inputs) satisfy the precondition: strictly increasing arc-length table, non-decreasing samples within it (not proved: numpy/scipy geometry)']
     import numpy as np
